@@ -38,7 +38,7 @@ func ToGraphviz(chain string) string {
 
 func BuildProjectMethodMap(clzs []core_domain.CodeDataStruct) map[string]int {
 	var maps = make(map[string]int)
-	for _, clz := range clzs {
+	for _, clz := range core_domain.WithInnerStructures(clzs) {
 		for _, method := range clz.Functions {
 			maps[method.BuildFullMethodName(clz)] = 1
 		}
@@ -49,7 +49,7 @@ func BuildProjectMethodMap(clzs []core_domain.CodeDataStruct) map[string]int {
 
 func BuildMethodCallMap(dataStructs []core_domain.CodeDataStruct, projectMaps map[string]int) map[string][]string {
 	var methodCallMap = make(map[string][]string)
-	for _, clz := range dataStructs {
+	for _, clz := range core_domain.WithInnerStructures(dataStructs) {
 		for _, method := range clz.Functions {
 			var caller = method.BuildFullMethodName(clz)
 			for _, jMethodCall := range method.FunctionCalls {
